@@ -1,6 +1,7 @@
 import RefmtModel
 import Driver.Proto
-open Refmt Refmt.Proto
+import Driver.ObjProto
+open Refmt Refmt.Proto Refmt.Obj
 
 /-- Run an encoder step function over tokens, stopping at the first done / error / panic.
     Returns (flags, writes).  Flags: '.' continue, 'D' done, 'E' error, 'P' panic. -/
@@ -198,16 +199,50 @@ def handle (parts : List String) : String :=
     | _, _ => "bad-op"
   | _ => "bad-op"
 
-partial def loop (hin : IO.FS.Stream) (hout : IO.FS.Stream) : IO Unit := do
+structure DState where
+  types : Obj.Types := []
+  atlases : List (Nat × Obj.Atlas) := []
+
+def showMOut (o : MOut) : String :=
+  showToks o.toks ++ "/" ++ (match o.fail with | none => "ok" | some .err => "err" | some .panic => "panic")
+
+def handleObj (st : DState) (parts : List String) : Option (DState × String) :=
+  match parts with
+  | ["T", id, d] =>
+    match parseNat id, parseTyDesc d with
+    | some i, some td => some ({ st with types := st.types ++ [(i, td)] }, "def")
+    | _, _ => some (st, "bad-def")
+  | ["A", id, srt, body] =>
+    match parseNat id, parseAtlas srt body with
+    | some i, some a => some ({ st with atlases := st.atlases ++ [(i, a)] }, "def")
+    | _, _ => some (st, "bad-def")
+  | ["marshal", aid, tid, _viaPtr, val] =>
+    match parseNat aid, parseNat tid with
+    | some ai, some ti =>
+      match st.atlases.lookup ai, parseValue st.types ti val with
+      | some a, some v => some (st, "M=" ++ showMOut (marshalV st.types a trLib 100000 ti v))
+      | _, _ => some (st, "bad-op")
+    | _, _ => some (st, "bad-op")
+  | _ => none
+
+partial def loop (hin : IO.FS.Stream) (hout : IO.FS.Stream) (st : DState) : IO Unit := do
   let line ← hin.getLine
   if line.isEmpty then return ()
   let l := line.trimRight
   match l.splitOn " " with
-  | id :: rest => hout.putStrLn (id ++ " " ++ handle rest)
-  | [] => hout.putStrLn "bad-op"
-  loop hin hout
+  | id :: rest =>
+    match handleObj st rest with
+    | some (st', out) =>
+      hout.putStrLn (id ++ " " ++ out)
+      loop hin hout st'
+    | none =>
+      hout.putStrLn (id ++ " " ++ handle rest)
+      loop hin hout st
+  | [] =>
+    hout.putStrLn "bad-op"
+    loop hin hout st
 
 def main : IO Unit := do
   let hin ← IO.getStdin
   let hout ← IO.getStdout
-  loop hin hout
+  loop hin hout {}
